@@ -31,6 +31,7 @@ import (
 	"crypto/sha256"
 	"encoding/json"
 	"fmt"
+	"io"
 	"math/big"
 	"os"
 	"os/exec"
@@ -877,6 +878,159 @@ func c08Corpus(quick bool) []*c08Prog {
 	return out
 }
 
+// ---------------------------------------------------------------- the same constant at several widths
+
+// Program.DefineConstants sorts the constant table by NAME only and wires the first entry of each
+// name; that is order independent only while names are unique in the table.  These programs use one
+// numeric value at several widths and signednesses (top bit of the narrow width set, all-ones,
+// negative literals) in signed and unsigned arithmetic, comparisons and as return values, so that a
+// table keyed by anything finer than the name gets tied entries whose winner changes the circuit.
+
+type c08Const struct {
+	Key  string `json:"key"`
+	Name string `json:"name"`
+	Bits int    `json:"bits"`
+}
+
+// c08ConstTable returns ssa.Program.Constants (what DefineConstants ranges over) after CompileSSA.
+func c08ConstTable(p *c08Prog) (tbl []c08Const, err error) {
+	c08Quiet(func() {
+		defer func() {
+			if r := recover(); r != nil {
+				err = fmt.Errorf("panic: %v", r)
+			}
+		}()
+		w := &c08Writer{b: new(bytes.Buffer)}
+		params := c08Params(p, w)
+		var src io.Reader
+		name := "{data}"
+		if p.File != "" {
+			f, e := os.Open(p.File)
+			if e != nil {
+				err = e
+				return
+			}
+			defer f.Close()
+			src, name = f, p.File
+		} else {
+			src = strings.NewReader(p.Src)
+		}
+		prog, _, e := compiler.New(params).CompileSSA(name, src, nil)
+		if e != nil {
+			err = e
+			return
+		}
+		for k, ci := range prog.Constants {
+			tbl = append(tbl, c08Const{Key: k, Name: ci.Const.Name, Bits: int(ci.Const.Type.Bits)})
+		}
+	})
+	sort.Slice(tbl, func(i, j int) bool { return tbl[i].Key < tbl[j].Key })
+	return
+}
+
+var c08DirectedWidthPrograms = []string{
+	// the shape of the seeded-defect demo: 0x80000000 as int64 and as uint32
+	"package main\n\nconst K int64 = 0x80000000\nconst M uint32 = 0x80000000\n\nfunc main(a, b int64) (int64, uint32) {\n\tc := uint32(b)\n\treturn a + K, c ^ M\n}\n",
+	"package main\n\nfunc main(a, b int64) (int64, uint32) {\n\tc := uint32(b)\n\treturn a + 0x80000000, c ^ 0x80000000\n}\n",
+	"package main\n\nconst K int64 = 0xffffffff\nconst M uint32 = 0xffffffff\n\nfunc main(a, b int64) (int64, uint32) {\n\tc := uint32(b)\n\treturn a - K, c & M\n}\n",
+	"package main\n\nconst K int32 = 0x8000\nconst M uint16 = 0x8000\n\nfunc main(a, b int32) (int32, uint16) {\n\tc := uint16(b)\n\treturn a + K, c | M\n}\n",
+	"package main\n\nconst K int16 = 0x80\nconst M uint8 = 0x80\n\nfunc main(a, b int16) (int16, uint8) {\n\tc := uint8(b)\n\treturn a * K, c ^ M\n}\n",
+	"package main\n\nconst K int64 = 0x80000000\nconst M uint32 = 0x80000000\n\nfunc main(a, b int64) (bool, bool) {\n\tc := uint32(b)\n\treturn a < K, c > M\n}\n",
+	"package main\n\nconst K int64 = 0x80000000\nconst M uint32 = 0x80000000\n\nfunc main(a, b int64) (int64, uint32) {\n\treturn K, M\n}\n",
+	"package main\n\nconst K uint64 = 0x80000000\nconst L int64 = 0x80000000\nconst M uint32 = 0x80000000\n\nfunc main(a, b int64) (uint64, int64, uint32) {\n\tc := uint32(b)\n\td := uint64(a)\n\treturn d + K, a - L, c + M\n}\n",
+	"package main\n\nconst K int64 = -2147483648\nconst M int32 = -2147483648\n\nfunc main(a, b int64) (int64, int32) {\n\tc := int32(b)\n\treturn a + K, c + M\n}\n",
+	"package main\n\nconst K int32 = -1\nconst M int64 = -1\n\nfunc main(a, b int64) (int32, int64) {\n\tc := int32(b)\n\treturn c + K, a - M\n}\n",
+	"package main\n\nconst K int64 = 0xffff\nconst M uint16 = 0xffff\n\nfunc main(a, b int64) (int64, uint16, bool) {\n\tc := uint16(b)\n\treturn a ^ K, c - M, a == K\n}\n",
+	"package main\n\nconst K int64 = 0x80000000\n\nfunc main(a, b int64) int64 {\n\tvar c uint32 = 0x80000000\n\tif uint32(b) > c {\n\t\treturn a + K\n\t}\n\treturn a - K\n}\n",
+}
+
+func c08KindRank(kind string) int {
+	switch kind {
+	case "const-widths":
+		return 0
+	case "alias-clash":
+		return 1
+	case "generated":
+		return 2
+	case "repo-multi-import":
+		return 3
+	}
+	return 4
+}
+
+// genWidthProgram: a random program that uses one literal value at 2-3 types.
+func c08GenWidthProgram(rng *RNG, idx int) *c08Prog {
+	narrowW := []int{8, 16, 32}[rng.Intn(3)]
+	var val string
+	signedNarrow := false
+	kind := rng.Intn(5)
+	if kind >= 3 {
+		narrowW = 32 // negative literals are int32 at least
+	}
+	switch kind {
+	case 0:
+		val = fmt.Sprintf("0x%x", uint64(1)<<(narrowW-1))
+	case 1:
+		val = fmt.Sprintf("0x%x", (uint64(1)<<narrowW)-1)
+	case 2:
+		val = fmt.Sprintf("0x%x", (uint64(1)<<(narrowW-1))+uint64(rng.Range(1, 100)))
+	case 3:
+		val = fmt.Sprintf("-%d", uint64(1)<<(narrowW-1))
+		signedNarrow = true
+	default:
+		val = fmt.Sprintf("-%d", rng.Range(1, 100))
+		signedNarrow = true
+	}
+	narrowT := fmt.Sprintf("uint%d", narrowW)
+	if signedNarrow {
+		narrowT = fmt.Sprintf("int%d", narrowW)
+	}
+	wideW := []int{16, 32, 64}[rng.Intn(3)]
+	for wideW <= narrowW {
+		wideW *= 2
+	}
+	wideT := fmt.Sprintf("int%d", wideW)
+	if !signedNarrow && rng.Intn(4) == 0 {
+		wideT = fmt.Sprintf("uint%d", wideW)
+	}
+	arith := []string{"+", "-", "*", "^", "&", "|"}
+	cmp := []string{"<", ">", "==", "!=", "<=", ">="}
+	if wideW == 64 {
+		arith = []string{"+", "-", "^", "&", "|"} // 64-bit multipliers are slow to compile
+	}
+	useConst := rng.Bool()
+	k, m := "K", "M"
+	var sb strings.Builder
+	sb.WriteString("package main\n\n")
+	if useConst {
+		sb.WriteString(fmt.Sprintf("const K %s = %s\nconst M %s = %s\n\n", wideT, val, narrowT, val))
+	} else {
+		k, m = val, val
+	}
+	third := rng.Intn(3) == 0 && wideW < 64
+	sb.WriteString(fmt.Sprintf("func main(a, b %s) (%s, %s, bool", wideT, wideT, narrowT))
+	if third {
+		sb.WriteString(", int64")
+	}
+	sb.WriteString(") {\n")
+	sb.WriteString(fmt.Sprintf("\tc := %s(b)\n", narrowT))
+	e1 := fmt.Sprintf("a %s %s", arith[rng.Intn(len(arith))], k)
+	e2 := fmt.Sprintf("c %s %s", arith[rng.Intn(len(arith))], m)
+	e3 := fmt.Sprintf("a %s %s", cmp[rng.Intn(len(cmp))], k)
+	if rng.Intn(3) == 0 {
+		e3 = fmt.Sprintf("c %s %s", cmp[rng.Intn(len(cmp))], m)
+	}
+	if rng.Intn(5) == 0 {
+		e1 = k
+	}
+	sb.WriteString(fmt.Sprintf("\treturn %s, %s, %s", e1, e2, e3))
+	if third {
+		sb.WriteString(fmt.Sprintf(", int64(a) + %s", val))
+	}
+	sb.WriteString("\n}\n")
+	return &c08Prog{Name: fmt.Sprintf("widths%03d-%s-%s-%s", idx, val, narrowT, wideT), Src: sb.String(), Kind: "const-widths"}
+}
+
 // ---------------------------------------------------------------- probes for further sources of variation
 
 const c08TwoFilesMain = "package main\n\nimport (\n\t\"twofiles\"\n)\n\nfunc main(a, b uint8) uint8 {\n\treturn a + b + twofiles.A[1] + twofiles.B[2]\n}\n"
@@ -895,6 +1049,7 @@ func c08ProbeReaddir(c *Ctx) {
 		}
 		var obs [2]c08Obs
 		var names [2][]string
+		unstable := false
 		for k, order := range [][]string{{"a.mpcl", "b.mpcl"}, {"b.mpcl", "a.mpcl"}} {
 			dir := filepath.Join(root, "twofiles")
 			os.RemoveAll(dir)
@@ -910,14 +1065,29 @@ func c08ProbeReaddir(c *Ctx) {
 				names[k], _ = d.Readdirnames(-1)
 				d.Close()
 			}
-			obs[k] = c08Compile(&c08Prog{Name: "readdir-probe", Src: c08TwoFilesMain, PkgPath: []string{root}})
+			prog := &c08Prog{Name: "readdir-probe", Src: c08TwoFilesMain, PkgPath: []string{root}}
+			obs[k] = c08Compile(prog)
 			c.nEval++
+			for rep := 0; rep < 5; rep++ { // the same directory order must always give the same output
+				o := c08Compile(prog)
+				c.nEval++
+				if o.key() != obs[k].key() {
+					unstable = true
+				}
+			}
 		}
 		os.RemoveAll(root)
 		orderDiffers := strings.Join(names[0], ",") != strings.Join(names[1], ",")
 		c.Hist(fmt.Sprintf("readdir-probe:%s:order-follows-creation=%v", base, orderDiffers))
 		if orderDiffers {
 			varied = true
+		}
+		if unstable {
+			// not attributable to the directory order: the output varies for one and the same order
+			c.Fail("c08:unexplained:output-differs", "readdir-probe program: repeated compilations with an unchanged package directory differ",
+				map[string]interface{}{"base": base, "main": c08TwoFilesMain})
+			exhibited = true
+			break
 		}
 		if obs[0].key() != obs[1].key() {
 			exhibited = true
@@ -1122,6 +1292,17 @@ func runC08(c *Ctx) error {
 		corpus = append(corpus, p)
 	}
 
+	for i, src := range c08DirectedWidthPrograms {
+		corpus = append(corpus, &c08Prog{Name: fmt.Sprintf("widths-directed-%02d", i), Src: src, Kind: "const-widths"})
+	}
+	nwidth := c.N(16, 80)
+	for i := 0; i < nwidth; i++ {
+		corpus = append(corpus, c08GenWidthProgram(grng.Fork(), i))
+	}
+
+	// the cheap directed families first, the file corpus last (time budget)
+	sort.SliceStable(corpus, func(i, j int) bool { return c08KindRank(corpus[i].Kind) < c08KindRank(corpus[j].Kind) })
+
 	// an unrelated program compiled between runs (history)
 	unrelated := []*c08Prog{
 		{Name: "unrelated-1", Src: "package main\n\nimport (\n\t\"encoding/hex\"\n)\n\nfunc main(a, b uint16) uint16 {\n\treturn a * b + uint16(hex.Digits[3])\n}\n"},
@@ -1129,18 +1310,20 @@ func runC08(c *Ctx) error {
 	}
 
 	kLow := c.N(6, 12)
-	kHigh := c.N(160, 400)
+	kHigh := c.N(128, 400)
 	nChildren := c.N(2, 4)
-	budget := time.Duration(c.N(40, 600)) * time.Second
+	budget := time.Duration(c.N(45, 600)) * time.Second
 
 	type progRes struct {
-		p        *c08Prog
-		g        *c08Graph
-		fresh    []c08Obs // fresh compiler observations (in process and children)
-		reused   []c08Obs
-		k        int
-		enough   bool
-		compileT time.Duration
+		p         *c08Prog
+		g         *c08Graph
+		fresh     []c08Obs // fresh compiler observations (in process and children)
+		reused    []c08Obs
+		k         int
+		consts    []c08Const
+		constsErr error
+		enough    bool
+		compileT  time.Duration
 	}
 	var results []*progRes
 
@@ -1189,14 +1372,21 @@ func runC08(c *Ctx) error {
 		if r.g != nil && r.g.maxFan() >= 2 {
 			k = kHigh
 			// keep slow multi-import programs within the budget
-			if max := int((6 * time.Second) / (r.compileT + time.Millisecond)); k > max {
+			if max := int((time.Duration(c.N(3, 8)) * time.Second) / (r.compileT + time.Millisecond)); k > max {
 				k = max
 			}
 			if k < kLow {
 				k = kLow
 			}
 		}
+		if p.Kind == "const-widths" && first.Err == "" {
+			// a 10% minority ordering is missed by 96 compilations with probability 4e-5
+			k = c.N(96, 200)
+		}
 		r.k = k
+		if first.Err == "" {
+			r.consts, r.constsErr = c08ConstTable(p)
+		}
 		for i := 1; i < k; i++ {
 			if i%5 == 3 { // history: unrelated compilations first
 				for j := 0; j <= i%2; j++ {
@@ -1305,7 +1495,7 @@ func runC08(c *Ctx) error {
 			}
 			distinct[o.key()]++
 		}
-		nontrivial := r.g != nil && r.g.maxFan() >= 2
+		nontrivial := (r.g != nil && r.g.maxFan() >= 2) || (p.Kind == "const-widths" && r.fresh[0].Err == "")
 		c.Eval(p.Name, nontrivial)
 		for range r.fresh[1:] {
 			c.nEval++
@@ -1340,13 +1530,24 @@ func runC08(c *Ctx) error {
 			}
 			key := "c08:unexplained:output-differs"
 			if a.Err == "" && b.Err == "" && a.ssaText != "" && b.ssaText != "" {
-				if c08SameUpToBlockOrder(a.ssaText, b.ssaText) && a.Circ == b.Circ && a.Bristol == b.Bristol {
+				// init-block order: the listings differ, and only in the order of the package blocks
+				if a.SSA != b.SSA && c08SameUpToBlockOrder(a.ssaText, b.ssaText) {
 					key = "c08:Package.Init:imports-map-order"
-				} else if c08SameUpToBlockOrder(a.ssaText, b.ssaText) {
-					key = "c08:Package.Init:imports-map-order:circuit-differs"
+					if a.Circ != b.Circ || a.Bristol != b.Bristol {
+						key += ":circuit-differs"
+					}
 				}
 			} else if a.Err != b.Err {
 				key = "c08:unexplained:error-differs"
+			}
+			if key == "c08:unexplained:output-differs" && a.Err == "" && b.Err == "" && a.SSA == b.SSA && a.Circ != b.Circ && p.Kind != "const-widths" {
+				key = "c08:same-listing:circuit-differs"
+			}
+			if p.Kind == "const-widths" && key == "c08:unexplained:output-differs" {
+				key = "c08:same-constant-two-widths:listing-differs"
+				if a.Circ != b.Circ {
+					key = "c08:same-constant-two-widths:circuit-differs"
+				}
 			}
 			if r.g != nil && r.g.clashes() > 0 && key == "c08:unexplained:output-differs" {
 				// two import paths share an alias: which one is parsed first decides the package the
@@ -1363,9 +1564,39 @@ func runC08(c *Ctx) error {
 			c.Fail(key, fmt.Sprintf("%s: %d distinct outputs in %d compilations of the same source with the same parameters (fresh Compiler each; %s)",
 				p.Name, len(distinct), len(r.fresh), what),
 				map[string]interface{}{"program": p, "compilations": len(r.fresh), "distinct": len(distinct), "counts": counts,
-					"output_a":         map[string]string{"circ": a.Circ, "bristol": a.Bristol, "ssa": a.SSA, "err": a.Err},
-					"output_b":         map[string]string{"circ": b.Circ, "bristol": b.Bristol, "ssa": b.SSA, "err": b.Err},
+					"output_a":        map[string]string{"circ": a.Circ, "bristol": a.Bristol, "ssa": a.SSA, "err": a.Err},
+					"output_b":        map[string]string{"circ": b.Circ, "bristol": b.Bristol, "ssa": b.SSA, "err": b.Err},
+					"result_a_on_3_5": c08Eval(a.circ), "result_b_on_3_5": c08Eval(b.circ),
 					"ssa_diff_excerpt": c08DiffExcerpt(a.ssaText, b.ssaText)})
+		}
+
+		// property oracle 3: the sort key of Program.DefineConstants (the name) is unique in the
+		// constant table - the hypothesis of C08_define_constants, checked after every compilation
+		if r.constsErr != nil {
+			c.Note("%s: constant table: %v", p.Name, r.constsErr)
+		}
+		{
+			byName := map[string][]c08Const{}
+			for _, e := range r.consts {
+				byName[e.Name] = append(byName[e.Name], e)
+			}
+			var dups [][]c08Const
+			var names []string
+			for n, l := range byName {
+				if len(l) > 1 {
+					names = append(names, n)
+				}
+			}
+			sort.Strings(names)
+			for _, n := range names {
+				dups = append(dups, byName[n])
+			}
+			c.Hist(fmt.Sprintf("constant-table:tied-names=%v", len(dups) > 0))
+			if len(dups) > 0 {
+				c.Fail("c08:DefineConstants:sort-key-not-unique", fmt.Sprintf("%s: ssa.Program.Constants holds %d name(s) more than once (e.g. %s at %d and %d bits): DefineConstants sorts by name only and wires the first instance, so the map iteration order decides which width is wired",
+					p.Name, len(dups), dups[0][0].Name, dups[0][0].Bits, dups[0][1].Bits),
+					map[string]interface{}{"program": p, "tied_entries": dups, "table": r.consts})
+			}
 		}
 
 		// property oracle 2: a reused Compiler gives what a fresh one gives
@@ -1469,7 +1700,7 @@ func runC08(c *Ctx) error {
 				inProcess++
 			}
 		}
-		checkSingle := inProcess >= 150 || g.maxFan() < 2
+		checkSingle := inProcess >= 120 || g.maxFan() < 2
 		// function instance numbers (generated programs: function names are unique by construction)
 		var fids, instFresh, instReuse []int
 		if p.Kind == "generated" {
@@ -1493,7 +1724,23 @@ func runC08(c *Ctx) error {
 			}
 			c.Hist(fmt.Sprintf("function-instances:%d", len(names)))
 		}
-		in := L(L(pk...), I(g.pathID("")), L(obsL...), Bool(checkSingle), L(reuseL...), Ints(fids), Ints(instFresh), Ints(instReuse))
+		// the constant table: (name id, bits) in key order
+		var ctab []SX
+		{
+			var names []string
+			for _, e := range r.consts {
+				names = append(names, e.Name)
+			}
+			sort.Strings(names)
+			names = uniqStrings(names)
+			for _, e := range r.consts {
+				ctab = append(ctab, L(I(sort.SearchStrings(names, e.Name)+1), I(e.Bits)))
+			}
+			if len(ctab) > 40 { // keep cases small; the oracle above checks the whole table
+				ctab = ctab[:40]
+			}
+		}
+		in := L(L(pk...), I(g.pathID("")), L(obsL...), Bool(checkSingle), L(reuseL...), Ints(fids), Ints(instFresh), Ints(instReuse), L(ctab...))
 		members := make([]SX, len(obsL))
 		for i := range members {
 			members[i] = I(1)
@@ -1506,7 +1753,7 @@ func runC08(c *Ctx) error {
 		for i := range rmembers {
 			rmembers[i] = I(1)
 		}
-		c.Case(in, L(L(members...), I(1), single, L(rmembers...), I(1), I(1)))
+		c.Case(in, L(L(members...), I(1), single, L(rmembers...), I(1), I(1), I(1), I(1)))
 		c.Hist(fmt.Sprintf("observed-init-orders:%d", len(obsL)))
 		if len(obsL) > 1 {
 			c.Sample(map[string]interface{}{"program": p.Name, "compilations": len(r.fresh), "distinct_outputs": len(distinct), "distinct_init_orders": len(obsL), "import_orders_possible": g.orders()})
